@@ -240,9 +240,15 @@ def spec_I(x, y, lx, ly):
     """I2abc[x,y,1] of math/ffunctions.m with ln(x/y) = lx - ly:  (x y ln(x/y) + y ln y + x ln(1/x))/((x-y)(y-1)(x-1))"""
     return (x * y * (lx - ly) + y * ly - x * lx) / ((x - y) * (y - 1) * (x - 1))
 
-def last_path(ps):
-    """the generic path: the one on which every degenerate-case test failed (it is explored last)"""
-    return [p for p in ps if p[1] is not None and not isinstance(p[1], str)][-1]
+def last_path(ps, spec=None):
+    """the generic path: the one whose result is the defining expression (selected by content; if none matches, the last explored path is
+    returned so that the failed identity is reported against it)"""
+    live = [p for p in ps if p[1] is not None and not isinstance(p[1], str)]
+    if spec is not None:
+        for p in live:
+            if isinstance(p[1], z3.ExprRef) and _ring_eq(p[1], spec):
+                return p
+    return live[-1]
 
 @obligation('C02.def.generic', fns=[(FF, 'Fa'), (FF, 'Fb'), (FF, 'Ixy'), (FF, 'Ixyz'), (FF, 'FPZ'), (FF, 'FSZ'), (FF, 'FCWl'), (FF, 'FCWu'), (FF, 'FCWd')], replay=lambda m, wd: replay_multi([('Fa', 2), ('Fb', 2), ('Iabc', 3), ('FPZ', 2), ('FSZ', 2)])(m, wd))
 def _(ctx):
@@ -256,12 +262,14 @@ def _(ctx):
         stubs = dict(ATOMS); stubs['sort'] = sorted_stub()
         it, ps = run(ctx, fn, z3.Reals('x y'), [], stubs, feasibility=False)
         G = it.uf_cache[(g, 1)]
-        ctx.prove_ring(fn, [(last_path(ps)[1], -(G(s0) - G(s1)) / (s0 - s1))])
+        spec_ = -(G(s0) - G(s1)) / (s0 - s1)
+        ctx.prove_ring(fn, [(last_path(ps, spec_)[1], spec_)])
     for fn, g in (('FPZ', 'f_PS'), ('FSZ', 'f_S'), ('FCWl', 'f_CSl')):
         stubs = dict(ATOMS); stubs['sort'] = sorted_stub()
         it, ps = run(ctx, fn, z3.Reals('x y'), [], stubs, feasibility=False)
         G = it.uf_cache[(g, 1)]
-        ctx.prove_ring(fn, [(last_path(ps)[1], (s1 * G(s0) - s0 * G(s1)) / (s0 - s1))])
+        spec_ = (s1 * G(s0) - s0 * G(s1)) / (s0 - s1)
+        ctx.prove_ring(fn, [(last_path(ps, spec_)[1], spec_)])
     # Ixyz: generic path of Ixy with x = s0/s2, y = s1/s2
     stubs = dict(ATOMS); stubs['sort'] = sorted_stub()
     it, ps = run(ctx, 'Ixyz', z3.Reals('x y z'), [], stubs, feasibility=False)
@@ -271,14 +279,15 @@ def _(ctx):
     else:
         lx, ly = ln(s0 / s2), ln(s1 / s2)
         spec = (s0 * s1 * (lx - ly) + s1 * s2 * ly - s2 * s0 * lx) / ((s0 - s1) * (s1 - s2) * (s0 - s2))
-        ctx.prove_ring('Ixyz', [(last_path(ps)[1], spec)])
+        ctx.prove_ring('Ixyz', [(last_path(ps, spec)[1], spec)])
     # FCWu / FCWd: no sort; the generic path is the one where the shift is not applied
     xu, xd, yu, yd, qu, qd = z3.Reals('xu xd yu yd qu qd')
     for fn, g, (a, b) in (('FCWu', 'f_CSu', (xu, yu)), ('FCWd', 'f_CSd', (xd, yd))):
         it, ps = run(ctx, fn, [xu, xd, yu, yd, qu, qd], [v > 0 for v in (xu, xd, yu, yd)], dict(ATOMS, shift=lambda it, a, t: (_ for _ in ()).throw(RuntimeError('shift'))), feasibility=False) if False else \
                  run(ctx, fn, [xu, xd, yu, yd, qu, qd], [v > 0 for v in (xu, xd, yu, yd)], dict(ATOMS), feasibility=False)
         G = it.uf_cache[(g, 4)]
-        ctx.prove_ring(fn, [(last_path(ps)[1], (b * G(xu, xd, qu, qd) - a * G(yu, yd, qu, qd)) / (a - b))])
+        spec_ = (b * G(xu, xd, qu, qd) - a * G(yu, yd, qu, qd)) / (a - b)
+        ctx.prove_ring(fn, [(last_path(ps, spec_)[1], spec_)])
 
 # ------------------------------------------------------------------------------------------------ reference evaluation (mpmath) and the real code
 def _mp():
@@ -438,6 +447,15 @@ def zero(e, logs=()):
     num, den = sympy.fraction(sympy.together(e))
     return sympy.expand(num) == 0
 
+def path_with(ps, logs):
+    """the branch with (closed form) / without (pure series polynomial) logarithms -- selected by content, not by position in the source"""
+    for s_, r, e in ps:
+        if r is None or isinstance(r, str):
+            continue
+        if (('ln(' in str(r)) == logs):
+            return r
+    raise RuntimeError('no path %s logarithms among %d paths' % ('with' if logs else 'without', len(ps)))
+
 def coeff_check(ctx, tag, got, want, what):
     d = sympy.expand(got - want)
     ok = d == 0
@@ -455,12 +473,12 @@ def _(ctx):
         g = taylor1(G, 1, 10)
         # --- F?11
         it, ps = code_expr(ctx, fn + '11', [x, y])
-        e = sympy.expand(z2s(ps[0][1]).subs({X: 1 + S, Y: 1 + T}))
+        e = sympy.expand(z2s(path_with(ps, False)).subs({X: 1 + S, Y: 1 + T}))
         want = sympy.expand(dd_poly(g, -1, 3))
         coeff_check(ctx, fn + '11', e, want, 'all 9 coefficients s^i t^j, i,j <= 2')
         # --- F?x, general branch (last path) and near-1 branch (first path)
         it, ps = code_expr(ctx, fn + 'x', [x, y], pre=[x > 0, y > 0])
-        gen = z2s(ps[-1][1])
+        gen = z2s(path_with(ps, True))
         p = sympy.Poly(sympy.expand(gen.subs(Y, X + D)), D)
         okdeg = p.degree() == 2
         ctx.record(fn + 'x.degree', PROVED if okdeg else FAILED, 'B', 0, 'polynomial of degree %d in (y - x)' % p.degree())
@@ -468,7 +486,7 @@ def _(ctx):
             want = -sympy.diff(G(X), X, k + 1) / sympy.factorial(k + 1)
             ok = zero(p.coeff_monomial(D**k) - want, [X])
             ctx.record('%sx.c%d' % (fn, k), PROVED if ok else FAILED, 'B', 0, 'coefficient of (y-x)^%d == -G^(%d)(x)/%d!' % (k, k + 1, k + 1), solver='sympy diff + ring normalisation')
-        near = sympy.expand(z2s(ps[0][1]).subs(X, 1 + S))
+        near = sympy.expand(z2s(path_with(ps, False)).subs(X, 1 + S))
         want = sum(-(k + 1) * g[k + 1] * S**k for k in range(8))
         coeff_check(ctx, fn + 'x.near1', near, sympy.expand(want), 'coefficients of (x-1)^k, k <= 7, of -G\'(x)')
         # --- value at exactly (1,1)
@@ -488,15 +506,15 @@ def _(ctx):
     h = taylor1(sp_h, 1, 8)
     # I0y
     it, ps = code_expr(ctx, 'I0y', [y], pre=[y > 0])
-    gen = z2s(ps[-1][1])
+    gen = z2s(path_with(ps, True))
     lim = sympy.limit(sp_I(X, Y), X, 0)
     ctx.record('I0y.generic', PROVED if zero(gen - lim, [Y]) else FAILED, 'B', 0, 'I0y(y) == lim_{x->0} I(x,y) = %s' % lim)
-    near = sympy.expand(z2s(ps[0][1]).subs(Y, 1 + T))
+    near = sympy.expand(z2s(path_with(ps, False)).subs(Y, 1 + T))
     w = sympy.series(sympy.log(1 + T) / T, T, 0, 3).removeO()
     coeff_check(ctx, 'I0y.near1', near, sympy.expand(w), 'coefficients of (y-1)^k, k <= 2')
     # I1y: Taylor in s = x - 1 at fixed y;  I(1+s,y) = (H(s) - h(y))/(s - (y-1))
     it, ps = code_expr(ctx, 'I1y', [x, y], pre=[y > 0])
-    e = z2s(ps[-1][1]).subs(X, 1 + S)
+    e = z2s(path_with(ps, True)).subs(X, 1 + S)
     p = sympy.Poly(sympy.expand(e), S)
     H = sum(h[k] * S**k for k in range(6))
     ser = sympy.series((H - sp_h(Y)) / (S - (Y - 1)), S, 0, 3).removeO()
@@ -508,14 +526,14 @@ def _(ctx):
                    model=None if ok else {'_window': 'I1y'})
     # Ixx
     it, ps = code_expr(ctx, 'Ixx', [x, y], pre=[y > 0, x > 0])
-    gen = z2s(ps[-1][1])
+    gen = z2s(path_with(ps, True))
     p = sympy.Poly(sympy.expand(gen.subs(X, Y + D)), D)
     ctx.record('Ixx.degree', PROVED if p.degree() == 2 else FAILED, 'B', 0, 'polynomial of degree %d in (x-y)' % p.degree())
     for k in range(3):
         want = sympy.diff(sp_h(Y), Y, k + 1) / sympy.factorial(k + 1)
         ok = zero(p.coeff_monomial(D**k) - want, [Y])
         ctx.record('Ixx.c%d' % k, PROVED if ok else FAILED, 'B', 0, 'coefficient of (x-y)^%d == h^(%d)(y)/%d!' % (k, k + 1, k + 1), solver='sympy diff + ring normalisation')
-    near = sympy.expand(z2s(ps[0][1]).subs({X: 1 + S, Y: 1 + T}))
+    near = sympy.expand(z2s(path_with(ps, False)).subs({X: 1 + S, Y: 1 + T}))
     coeff_check(ctx, 'Ixx.near1', near, sympy.expand(dd_poly(h, 1, 3)), 'all 9 coefficients s^i t^j, i,j <= 2')
     # documented values
     for args, doc in (((1, 1, 1), Fr(1, 2)), ((0, 1, 1), Fr(1)), ((0, 0, 0), Fr(0)), ((0, 0, 1), Fr(0))):
@@ -690,7 +708,7 @@ def _(ctx):
     lam_z = sq(L2)
     ap, am = (1 - lam_z + u - v) / 2, (1 - lam_z - u + v) / 2
     spec = (2 * ln(ap) * ln(am) - ln(u) * ln(v) - 2 * Li2(ap) - 2 * Li2(am) + PI * PI / 3) / lam_z
-    gen = last_path(ps)
+    gen = last_path(ps, spec)
     ctx.prove_ring('phi_pos.generic', [(gen[1], spec)])
     # --- phi_pos(u,u)
     it2, ps2 = code_expr(ctx, 'phi_pos', [u, u], pre=[u > 0, u < Fr(1, 4)])
@@ -730,6 +748,7 @@ def _(ctx):
         su, sv = sq3(u), sq3(v)
         lamn = sq3(-((1 - u - v) * (1 - u - v) - 4 * u * v))
         spec = 2 * (Cl2(2 * acos((1 + u - v) / (2 * su))) + Cl2(2 * acos((1 - u + v) / (2 * sv))) + Cl2(2 * acos((-1 + u + v) / (2 * su * sv)))) / lamn
+        gen = last_path(ps3, spec)
         ctx.prove_ring('phi_neg.generic', [(gen[1], spec)])
     # --- phi_uv dispatch and Phi assembly
     calls = []
@@ -855,7 +874,8 @@ def _(ctx):
     ln = it.uf_cache.get(('ln', 1))
     gen = last_path(ps)
     # Ixy(0, b^2/c^2)/c^2 = ln(b^2/c^2)/(b^2/c^2 - 1)/c^2 ;  definition limit: (b^2 c^2 ln(b^2/c^2))/((-b^2)(b^2-c^2)(-c^2)) = ln(b^2/c^2)/(b^2 - c^2)
-    ctx.prove_ring('Iabc.0bc', [(gen[1], ln((b * b) / (c * c)) / (b * b - c * c))])
+    spec_ = ln((b * b) / (c * c)) / (b * b - c * c)
+    ctx.prove_ring('Iabc.0bc', [(last_path(ps, spec_)[1], spec_)])
 
 
 def fidelity(tier, seed):
